@@ -144,3 +144,65 @@ def run_group(fn, *a, **k):
         return [], {}, ('unsupported', str(e))
     except Exception as e:
         return [], {}, ('error', traceback.format_exc())
+
+
+def slice_obs(oid, out, in_names, k, pc, mv, timeout=None):
+    """per-(batch, channel) action, stated directly on the code's result `out`
+    (rank >= 2, batch axis 0, channel axis 1, k output channels per input channel):
+      (1) out[n, oc, P] mentions input elements of slice (n, oc div k) only;
+      (2) the coefficients are the same for every (n, c): they depend on
+          (oc mod k, P, M) alone."""
+    obs = []
+    r = out.ndim
+    idx = [z3.Int('P%d' % q) for q in range(r)]
+    idx2 = [z3.Int('Q%d' % q) for q in range(r)]
+    rng = [z3.And(i >= 0, i < I(n)) for i, n in zip(idx, out.shape)]
+    rng2 = [z3.And(i >= 0, i < I(n)) for i, n in zip(idx2, out.shape)]
+    canon = Canon()
+    ce = coeff_exprs(lift(out.at(idx)), canon)
+    for key in sorted(ce, key=str):
+        names = key[1]
+        dn = [n for n in names if n in in_names]
+        if len(dn) != 1:
+            obs.append(Ob('%s/slice[%s]/not-linear' % (oid, '*'.join(names)), 'POST', 'refuted', 'by-construction', 0))
+            continue
+        X = canon.vars(dn[0], len(canon.v[dn[0]]))
+        E = coeff_sum(ce[key])
+        ch = simp(I(idx[1]) / k) if k != 1 else idx[1]
+        st, model, dt, be = solve.check_unsat(list(pc) + rng + [E != 0, z3.Not(z3.And(X[0] == idx[0], X[1] == ch))],
+                                              timeout, list(mv) + idx + canon.all())
+        nm = '%s/slice[%s]/depends-only-on-own-slice' % (oid, '*'.join(names))
+        obs.append(Ob(nm, 'POST', {'unsat': 'proved', 'sat': 'refuted'}.get(st, 'undecided'), be, dt,
+                      {'model': model} if st == 'sat' else {}))
+        ch2 = simp(I(idx2[1]) / k) if k != 1 else idx2[1]
+        E1 = z3.substitute(E, (X[0], idx[0]), (X[1], I(ch)))
+        E2 = z3.substitute(E, *([(a, b) for a, b in zip(idx, idx2)] + [(X[0], idx2[0]), (X[1], I(ch2))]))
+        same = [a == b for a, b in zip(idx[2:], idx2[2:])]
+        if k != 1:
+            same.append(idx[1] % k == idx2[1] % k)
+        st, model, dt, be = solve.check_unsat(list(pc) + rng + rng2 + same + [E1 != E2], timeout,
+                                              list(mv) + idx + idx2 + canon.all())
+        nm = '%s/slice[%s]/same-operator-for-every-slice' % (oid, '*'.join(names))
+        obs.append(Ob(nm, 'POST', {'unsat': 'proved', 'sat': 'refuted'}.get(st, 'undecided'), be, dt,
+                      {'model': model} if st == 'sat' else {}))
+    return obs
+
+
+def explore_body(modkey, qual, mkargs, base, callee_contracts, max_paths=400):
+    """all paths of the real body on generic arguments: [(ctx, ('ret', value)|('raise', r), args)]"""
+    def run():
+        it = Interp(contracts=callee_contracts)
+        args, kw = mkargs()
+        try:
+            return ('ret', it.call(modkey, qual, args, kw, force_body=True)), args
+        except Raised as r:
+            return ('raise', r), args
+    out = []
+    for c, res in explore(run, base, max_paths):
+        if res[0] == 'raise':
+            raise Unsupported('argument construction raised')
+        CUR.ctx = c
+        if c.solver.check() == z3.unsat:
+            continue
+        out.append((c, res[1][0], res[1][1]))
+    return out
